@@ -53,3 +53,15 @@ MUTANTS['C14'] = [
   ('lazy-filter-key-of-previous', [(C, "            for key, example in self.input_dataset.__iter__(with_key=True):\n                total_count += 1\n", "            hist = [None]\n            for key, example in self.input_dataset.__iter__(with_key=True):\n                total_count += 1\n                hist.append(key)\n"), (C, "                    yield key, example\n", "                    yield (hist[-2] if total_count > 4 else key), example\n")]),
   ('catch-yields-after-exception', [(C, "                except self.exceptions as e:\n                    catched_count += 1\n                    if self.warn:\n                        msg = repr(e)\n                        LOG.warning(msg)\n        else:", "                except self.exceptions as e:\n                    catched_count += 1\n                    if catched_count == 3:\n                        return\n                    if self.warn:\n                        msg = repr(e)\n                        LOG.warning(msg)\n        else:")]),
 ]
+
+MUTANTS['C17'] = [
+  ('assess-ignores-total-size', [(C, "            and ((len(self.data) + 1) * max(self.max_len, seq_len)\n                 > self.max_total_size)", "            and False")]),
+  ('expiry-off-by-one', [(C, "if (i - creation_idx) >= self.expiration:", "if (i - creation_idx) > self.expiration:")]),
+  ('buffer-limit-off-by-one', [(C, "while buffered_count > self.max_buffered_examples:", "while buffered_count > self.max_buffered_examples + 1:")]),
+  ('drop-branch-forgets-buffered-count', [(C, "                        else:\n                            dropped_count += len(data)\n                        buffered_count -= len(data)\n                        buckets.pop(j)", "                        else:\n                            dropped_count += len(data)\n                            buffered_count += len(data)\n                        buffered_count -= len(data)\n                        buckets.pop(j)")]),
+  ('completed-ge-to-gt', [(C, "        return len(self.data) >= self.batch_size\n", "        return len(self.data) > self.batch_size\n")]),
+  ('lower-bound-uses-min', [(C, "        self.lower_bound = max(\n            self.lower_bound, seq_len * (1 - self.max_padding_rate)", "        self.lower_bound = min(\n            self.lower_bound, seq_len * (1 - self.max_padding_rate)")]),
+  ('final-flush-skips-last-bucket', [(C, "        for bucket, _ in buckets:\n            data = bucket.data", "        for bucket, _ in buckets[:-1] if len(buckets) > 2 else buckets:\n            data = bucket.data")]),
+  ('completed-pop-stale-index', [(C, "                buffered_count -= len(data)\n                buckets.pop(j)\n", "                buffered_count -= len(data)\n                buckets.pop(0 if len(buckets) > 2 else j)\n")]),
+  ('drop-mode-emits-expired', [(C, "                        data = bucket.data\n                        if not self.drop_incomplete:", "                        data = bucket.data\n                        if not self.drop_incomplete or len(data) > 2:")]),
+]
